@@ -1868,15 +1868,48 @@ impl<'a> Sem<'a> {
         let k = 1 + self.rng.below(3);
         for _ in 0..k {
             self.nl();
-            let s2 = self.stmt_begin();
-            self.w("def ");
-            let dn = self.fresh("sd");
-            let dd = self.declare(DeclKind::Def, &dn, None, None, None);
-            self.w(" : ");
-            self.class_ref(&c, 1, false);
-            self.w(";");
-            self.defs.push(DefInfo { decl: dd, name: dn, class: Some(c.clone()) });
-            self.stmt_end("Def", s2, Some(dd), false, Some(decl));
+            match self.rng.below(10) {
+                // a defset inside the defset (its defs are members of the inner one; the inner defset is
+                // a declaration of the file like any other)
+                0 | 1 if saved.is_none() && self.on("nested-defset") => {
+                    let s3 = self.stmt_begin();
+                    self.w("defset list<");
+                    self.ident(&c, Role::Use(cdecl));
+                    self.w("> ");
+                    let iname = self.fresh("S");
+                    let idecl = self.declare(DeclKind::Defset, &iname, Some(ty.clone()), None, None);
+                    self.w(" = {");
+                    self.indent += 1;
+                    self.depth += 1;
+                    self.in_defset = Some(idecl);
+                    for _ in 0..1 + self.rng.below(2) {
+                        self.nl();
+                        self.defset_member_def(&c, idecl);
+                    }
+                    self.in_defset = Some(decl);
+                    self.depth -= 1;
+                    self.indent -= 1;
+                    self.nl();
+                    self.w("}");
+                    self.scopes[0].push(Var { name: iname, ty: ty.clone(), decl: idecl });
+                    self.stmt_end("Defset", s3, Some(idecl), false, None);
+                }
+                // a def in a block inside the defset is still a member of the defset
+                2 if self.on("defset-block") => {
+                    let s3 = self.stmt_begin();
+                    self.w("if true then {");
+                    self.indent += 1;
+                    self.depth += 1;
+                    self.nl();
+                    self.defset_member_def(&c, decl);
+                    self.depth -= 1;
+                    self.indent -= 1;
+                    self.nl();
+                    self.w("}");
+                    self.stmt_end("If", s3, None, false, Some(decl));
+                }
+                _ => self.defset_member_def(&c, decl),
+            }
         }
         self.in_defset = saved;
         self.depth -= 1;
@@ -1886,6 +1919,18 @@ impl<'a> Sem<'a> {
         // a defset does not close a variable scope, and its name is a global of list type
         self.scopes[0].push(Var { name, ty, decl });
         self.stmt_end("Defset", start, Some(decl), true, None);
+    }
+
+    fn defset_member_def(&mut self, c: &str, defset: usize) {
+        let s2 = self.stmt_begin();
+        self.w("def ");
+        let dn = self.fresh("sd");
+        let dd = self.declare(DeclKind::Def, &dn, None, None, None);
+        self.w(" : ");
+        self.class_ref(c, 1, false);
+        self.w(";");
+        self.defs.push(DefInfo { decl: dd, name: dn, class: Some(c.to_string()) });
+        self.stmt_end("Def", s2, Some(dd), false, Some(defset));
     }
 
     fn multiclass_stmt(&mut self) {
